@@ -114,6 +114,8 @@ class DimFlow:
         self.cur_stmt = None
         self.skip = set(skip)
         self.evaluated = []
+        self.depth = 0
+        self.returns = None
 
     # ---- classification
     def is_vec(self, e):
@@ -374,7 +376,73 @@ class DimFlow:
             if nm == "push_back":
                 self.unify(st[self.key_of(o) + "[*]"], self.dim(args[0], st), "push_back into %s" % self.key_of(o))
                 return {}
+        # --- a private helper of the same class: analyse its body with the caller's state bound to its entry
+        methods = self.h.get("methods") or {}
+        if c.get("k") == "MCall" and (obj is None or obj.get("k") == "This") and nm in methods and self.depth < 2:
+            return self.inline(c, methods[nm], st)
         raise Unmodelled("call %s" % render(c)[:70])
+
+    def inline(self, c, callee, st):
+        sub = DimFlow(callee, self.h["Locals"](callee), self.h, assume=self.assume, skip=self.skip)
+        sub.sys = self.sys
+        sub.depth = self.depth + 1
+        sub.stmt_conflicts = self.stmt_conflicts
+        sub.unmodelled = self.unmodelled
+        sub.evaluated = self.evaluated
+        sub.returns = []
+        sub.run()
+        cfg = callee.cfg
+        args = c.get("a", [])
+        trans = {}
+        for i, prm in enumerate(callee.params):
+            if i >= len(args):
+                continue
+            ty = callee.type(prm["t"]) or ""
+            if "&" in ty and "Vector" in _strip_targs(ty):
+                trans["$%d" % i] = ("obj", self.key_of(args[i]))
+            else:
+                trans["$%d" % i] = ("val", self.dim(args[i], st))
+        # entry unknowns of the callee = the caller's current values
+        self.cur_stmt = c
+        for key, var in list(sub.ins[cfg.entry].entry.items()):
+            if key.startswith("l:"):
+                continue
+            if key in trans:
+                kind, v = trans[key]
+                self.unify(var, st[self.summary(v)] if kind == "obj" else v, "argument %s of %s" % (key, callee.name))
+            elif key.startswith("$"):
+                continue
+            else:
+                self.unify(var, st[key], "value of %s on entry of %s" % (key, callee.name))
+        # exit state of the callee flows back
+        exits = [b for b in cfg.normal_exit_preds() if b in sub.ins]
+        written = {}
+        for b in exits:
+            for key in dict.keys(sub.ins[b]):
+                if key.startswith("l:") or (key in trans and trans[key][0] == "val"):
+                    continue
+                written.setdefault(key, []).append(sub.ins[b][key])
+        for key, vals in written.items():
+            tgt = trans[key][1] if key in trans else key
+            if key.startswith("$") and key not in trans:
+                continue
+            v = vals[0]
+            for w in vals[1:]:
+                self.unify(v, w, "value of %s at the exits of %s" % (key, callee.name))
+            if len(vals) < len(exits):
+                # not touched on some exit path: there the entry value survives
+                self.unify(v, st[self.summary(tgt)], "value of %s around %s" % (key, callee.name))
+            if "[" in tgt:
+                self.unify(st[self.summary(tgt)], v, "element of container %s" % tgt)
+            else:
+                st[tgt] = v
+        r = None
+        for rv in sub.returns:
+            if r is None:
+                r = rv
+            else:
+                self.unify(r, rv, "values returned by %s" % callee.name)
+        return r if r is not None else {}
 
     def define(self, target, f, st):
         t = self.h["strip"](target)
@@ -423,6 +491,7 @@ class DimFlow:
                 if s is not None and self.edge_allowed(blk, pos):
                     stck.append(s)
         order = sorted(reach, reverse=True)      # clang numbers blocks in reverse: entry has the highest id
+        self.ins = ins
         for b in order:
             blk = cfg.blocks[b]
             st = _Lazy(self, b)
@@ -493,6 +562,12 @@ class DimFlow:
                     st["l:%s" % v["d"]] = self.sys.fresh(":" + v["n"])
         elif k in ("Assign", "MCall", "Call", "Construct", "TempObj", "OpCall", "Un"):
             self.dim(n, st)
+        elif k == "Return" and self.returns is not None and n.get("e") is not None:
+            t = self.fn.ntype(self.h["strip"](n["e"])) or ""
+            if "Status" not in t and "bool" not in t:
+                self.returns.append(self.dim(n["e"], st))
+            else:
+                self.dim(n["e"], st)
 
 
 class _Lazy(dict):
